@@ -17,14 +17,15 @@
 (*   StopReturn  the call returned; what every output had been handed by then *)
 (*               (Pipeline: StopWait reaching "stopped") -> NoAcceptedLoss    *)
 (*   StopHung    the call is parked for ever (StopCompletes violated)         *)
+(*   StopPanicked the call panicked in the caller's goroutine                 *)
 (*   Census      goroutines of the task still alive after the stop           *)
 (*               (AllGoroutinesExit) mapped onto Pipeline's process states    *)
 (* The property checks are conjuncts of the actions, so an execution that     *)
 (* violates C07 stops being a behaviour at exactly the offending line.        *)
 EXTENDS Pipeline, TraceCommon, SequencesExt
 
-VARIABLES l, cfg, census
-tvars == <<vars, l, cfg, census>>
+VARIABLES l, cfg, census, dev      \* dev: known deviations taken in the current attempt
+tvars == <<vars, l, cfg, census, dev>>
 
 Ln == Trace[l]
 IsEv(e) == l <= Len(Trace) /\ Ln.ev = e /\ l' = l + 1
@@ -46,7 +47,7 @@ BlankRd(t) == [e \in 1..MaxE |-> IF e <= Len(t.edges) /\ t.kinds[t.edges[e].to] 
 
 TrInit ==
     /\ Len(Trace) >= 1 /\ Trace[1].ev = "Reset"
-    /\ l = 2 /\ HWInit /\ cfg = Trace[1] /\ census = "none"
+    /\ l = 2 /\ HWInit /\ cfg = Trace[1] /\ census = "none" /\ dev = {}
     /\ topo = TopoOf(Trace[1]) /\ kind = Trace[1].kind
     /\ next = 1 /\ wp = EdgeNew /\ wclosed = FALSE /\ fk = [at |-> "idle", m |-> 0]
     /\ lock = "free" /\ sdel = FALSE /\ E = [e \in 1..MaxE |-> EdgeNew]
@@ -60,7 +61,7 @@ TrInit ==
 
 TrReset ==
     /\ IsEv("Reset")
-    /\ cfg' = Ln /\ census' = "none"
+    /\ cfg' = Ln /\ census' = "none" /\ dev' = {}
     /\ topo' = TopoOf(Ln) /\ kind' = Ln.kind
     /\ next' = 1 /\ wp' = EdgeNew /\ wclosed' = FALSE /\ fk' = [at |-> "idle", m |-> 0]
     /\ lock' = "free" /\ sdel' = FALSE /\ E' = [e \in 1..MaxE |-> EdgeNew]
@@ -80,21 +81,42 @@ TrAccept ==
     /\ IsEv("Accept")
     /\ sp.at = "idle" \/ (sp.at = "wait" /\ kind = "close")
     /\ accepted' = accepted \cup RangeSet(Ln.seqs)
-    /\ UNCHANGED <<topo, kind, Internal, pc, wb, hq, rd, mclosed, sp, delivered, refused, failed, cfg, census>>
+    /\ UNCHANGED <<topo, kind, Internal, pc, wb, hq, rd, mclosed, sp, delivered, refused, failed, cfg, census, dev>>
 
+\* a node returned an error because the driver made it (poison point / injected panic): from here on
+\* only termination is promised
 TrNodeFailed ==
-    /\ IsEv("NodeFailed")
+    /\ IsEv("NodeFailed") /\ Ln.injected
     /\ failed' = TRUE
-    /\ UNCHANGED <<topo, kind, Internal, pc, wb, hq, rd, mclosed, sp, accepted, delivered, refused, cfg, census>>
+    /\ UNCHANGED <<topo, kind, Internal, pc, wb, hq, rd, mclosed, sp, accepted, delivered, refused, cfg, census, dev>>
+
+\* A node that fails although nothing was injected failed BECAUSE of the stop: not an excuse for a loss
+\* (`failed` stays FALSE).  The only listed case:
+\* KNOWN FINDING udf-stop-aborts: ExecutingTask.stop calls stopUDF = udf.Abort before it waits for the
+\* node; the UDF node drops what is in flight, returns "stopping UDF server: node aborted" and aborts its
+\* parent edges (Pipeline: StopUdfAbort; model-level counterexample Pipeline_udf.cfg).
+HasKind(k) == \E n \in Nodes : NK(n) = k
+TrNodeFailedByStopUDF ==
+    /\ IsEv("NodeFailed") /\ ~Ln.injected
+    /\ HasKind("udf") /\ sp.at = "wait"
+    /\ dev' = dev \cup {"udf-stop-aborts"}
+    /\ UNCHANGED <<vars, cfg, census>>
 
 TrStopCall ==
     /\ IsEv("StopCall")
     /\ sp.at = "idle"
     /\ sp' = [at |-> "wait", i |-> 0]
-    /\ UNCHANGED <<topo, kind, Internal, pc, wb, hq, rd, mclosed, accepted, delivered, refused, failed, cfg, census>>
+    /\ UNCHANGED <<topo, kind, Internal, pc, wb, hq, rd, mclosed, accepted, delivered, refused, failed, cfg, census, dev>>
 
 OutName(n) == CHOOSE o \in DOMAIN cfg.topo.outs : cfg.topo.outs[o] = n
 IsOut(n) == \E o \in DOMAIN cfg.topo.outs : cfg.topo.outs[o] = n
+
+\* nodes reachable from n (n included)
+RECURSIVE ReachFrom(_, _)
+ReachFrom(S, k) == IF k = 0 THEN S
+                   ELSE ReachFrom(S \cup {topo.edges[e].to : e \in {x \in EIdx : topo.edges[x].from \in S}}, k - 1)
+BelowUdf == ReachFrom({n \in Nodes : NK(n) = "udf"}, Len(topo.kinds))
+Lossy(o) == ~(Expected(o) \subseteq SeqSet(delivered[o]))
 
 \* the stop call returned: what each output had been handed at that moment.  C07 safety.
 TrStopReturn ==
@@ -103,9 +125,22 @@ TrStopReturn ==
     /\ sp' = [at |-> "stopped", i |-> 0]
     /\ delivered' = [n \in 1..MaxN |-> IF IsOut(n) THEN RangesSeq(Ln.delivered[OutName(n)]) ELSE <<>>]
     /\ refused' = Ln.refused
-    /\ UNCHANGED <<topo, kind, Internal, pc, wb, hq, rd, mclosed, accepted, failed, cfg, census>>
-    /\ NoAcceptedLoss'
+    /\ UNCHANGED <<topo, kind, Internal, pc, wb, hq, rd, mclosed, accepted, failed, cfg, census, dev>>
     /\ NothingInvented'
+    /\ \/ NoAcceptedLoss'
+       \/ /\ "udf-stop-aborts" \in dev                 \* only outputs behind the aborted UDF may have lost points
+          /\ \A o \in Outputs : Lossy(o)' => o \in BelowUdf
+          /\ PrintT(<<"KF-HIT", "udf-stop-aborts">>)
+
+\* KNOWN FINDING udf-stop-before-open-panics: a stop requested before the UDF node goroutine has opened
+\* its UDF calls Abort on a nil *udf.Server: nil pointer panic in the goroutine that called StopTask.
+TrStopPanickedUDF ==
+    /\ IsEv("StopPanicked")
+    /\ sp.at = "wait" /\ HasKind("udf")
+    /\ cfg.stallKind = "run" /\ \E n \in Nodes : NK(n) = "udf" /\ cfg.topo.nodes[n] = cfg.stallNode
+    /\ PrintT(<<"KF-HIT", "udf-stop-before-open-panics">>)
+    /\ sp' = [at |-> "hung", i |-> 0]
+    /\ UNCHANGED <<topo, kind, Internal, pc, wb, hq, rd, mclosed, accepted, delivered, refused, failed, cfg, census, dev>>
 
 \* KNOWN FINDING loopback-stop-deadlock: StopTask/DeleteTask of a task whose kapacitorLoopback node
 \* still has more points to write back than the TaskMaster's ingest edge can hold never returns
@@ -119,7 +154,7 @@ TrStopHungLoopback ==
     /\ cfg.n > cfg.cap
     /\ PrintT(<<"KF-HIT", "loopback-stop-deadlock">>)
     /\ sp' = [at |-> "hung", i |-> 0]
-    /\ UNCHANGED <<topo, kind, Internal, pc, wb, hq, rd, mclosed, accepted, delivered, refused, failed, cfg, census>>
+    /\ UNCHANGED <<topo, kind, Internal, pc, wb, hq, rd, mclosed, accepted, delivered, refused, failed, cfg, census, dev>>
 
 \* goroutines of the task that are still alive (parked, motionless) after the stop returned, mapped
 \* onto the model's processes; AllGoroutinesExit = none.
@@ -127,7 +162,6 @@ SigWb == "(*writeBuffer).run"
 SigHandler == "alert.(*bufHandler).run"
 SigReader == "edge.(*multiConsumer).readEdge"
 SigCollector == "edge.(*multiConsumer).Consume.func2"
-HasKind(k) == \E n \in Nodes : NK(n) = k
 Attributed(s) == \/ s = SigWb /\ HasKind("influx")
                  \/ s = SigHandler /\ HasKind("alert")
                  \/ s \in {SigReader, SigCollector} /\ HasKind("union")
@@ -147,18 +181,20 @@ TrCensus ==
                                      ELSE NoRd]
        /\ mclosed' = [n \in 1..MaxN |-> n \in Nodes /\ NK(n) = "union" /\ SigCollector \notin L]
     /\ census' = "done"
-    /\ UNCHANGED <<topo, kind, Internal, sp, accepted, delivered, refused, failed, cfg>>
+    /\ UNCHANGED <<topo, kind, Internal, sp, accepted, delivered, refused, failed, cfg, dev>>
     /\ AllDone'
 
 TrEnd ==
     /\ IsEv("End")
     /\ sp.at \in {"stopped", "hung"}
-    /\ UNCHANGED <<vars, cfg, census>>
+    /\ UNCHANGED <<vars, cfg, census, dev>>
 
-TrNext == TrReset \/ TrAccept \/ TrNodeFailed \/ TrStopCall \/ TrStopReturn \/ TrStopHungLoopback \/ TrCensus \/ TrEnd
+TrNext == TrReset \/ TrAccept \/ TrNodeFailed \/ TrNodeFailedByStopUDF \/ TrStopCall \/ TrStopReturn
+          \/ TrStopHungLoopback \/ TrStopPanickedUDF \/ TrCensus \/ TrEnd
 TrSpec == TrInit /\ [][TrNext]_tvars
 
 QuietAfterCensus == census = "done" => AllDone
+TrNoLoss == NoAcceptedLoss \/ "udf-stop-aborts" \in dev
 HW == HWMark(l)
 Accepted == HWAccepted
 =============================================================================
